@@ -10,6 +10,7 @@ import (
 	"go/token"
 	"go/types"
 	"regexp"
+	"regexp/syntax"
 	"sort"
 	"strings"
 
@@ -82,7 +83,8 @@ type printerStringBranches struct {
 	fn                       *ssa.Function
 	quoted, raw, keyword     []ssa.Value // parts of the returned concatenation
 	quotedRet, rawRet, kwRet *ssa.Return
-	strVal                   ssa.Value // the string being printed (tobj)
+	kwAll                    []*ssa.Return // every return of the keyword branch
+	strVal                   ssa.Value     // the string being printed (tobj)
 	marker                   string
 	strFn                    *ssa.Function // the function holding the string branches (Pr_str or a helper handed the string)
 	strKey                   string        // access path of the string being printed inside strFn
@@ -155,6 +157,7 @@ func findPrinterStringBranches(w *World, e *Engine) (*printerStringBranches, str
 			switch {
 			case isKw:
 				ps.keyword, ps.kwRet = parts, ret
+				ps.kwAll = append(ps.kwAll, ret)
 				ps.strFn = cand
 			case len(parts) == 3 && first == "\"":
 				ps.quoted, ps.quotedRet = parts, ret
@@ -350,6 +353,7 @@ func checkC06(w *World, r *Report) {
 	keywordInjectiveRule(w, r, "C06.keyword")
 	printerRules(w, r, "C06.one-escaper")
 	intInverseRule(w, r, "C06.int")
+	readerLimitRule(w, r, "C06.no-limit")
 	// "yields a value equal to the original": the equality the round trip is judged by
 	r.include("C06.equal-", "C14.", "the value read back must be equal to the original under =, so = must be structural equality on data", checkC14, func(rule string) bool {
 		switch rule {
@@ -526,6 +530,19 @@ func checkC06(w *World, r *Report) {
 		}
 	}
 	r.check(okKw, "C06.brackets", ps.fn, "keyword printed", ps.kwRet.Pos(), "the keyword character followed by the name with exactly the marker stripped", "the printer does not print a keyword as its name with exactly the leading marker stripped (a marker character inside the name would be altered)")
+	// every keyword is printed that way: one form, the one the reader turns back into the keyword
+	for _, ret := range ps.kwAll {
+		parts := concatParts(ret.Results[0])
+		okOne := false
+		if p0, ok := constString(parts[0]); ok && p0 == kwPrefix && len(parts) == 2 {
+			if sl, ok := parts[1].(*ssa.Slice); ok && sl.High == nil {
+				if k, ok := sl.Low.(*ssa.Const); ok && k.Value != nil && k.Int64() == int64(len(marker)) {
+					okOne = true
+				}
+			}
+		}
+		r.check(okOne, "C06.brackets", ps.strFn, "form a keyword is printed in", ret.Pos(), "the keyword character followed by the name", "some keywords are printed in another form (a call form, a quoted string ...): the reader turns that text into a list or a string, not into the keyword - and the scanner's idea of which names are one token is not the printer's to guess")
+	}
 	// reader strips 1 = len(kwPrefix)
 	okRk := false
 	if c, ok := rs.kwRet.(*ssa.Call); ok {
@@ -757,6 +774,8 @@ func checkC16(w *World, r *Report) {
 			}
 		}
 	}
+	replAccumulateRule(w, r, multi, "C16.repl-reset")
+	leafReaderRule(w, r, "C16.one-token")
 	// who may say "incomplete": the message shape the REPL takes for "keep reading" is built only where the
 	// token stream really ends inside an open bracket (the template in read_list) and for the raw-string
 	// delimiter (read_atom); any other place that builds such a message classifies input by another criterion
@@ -1194,6 +1213,7 @@ func checkC15(w *World, r *Report) {
 	// the pattern, evaluated on lines of the writer's shape
 	pat := ""
 	textIntactRule(w, r, "C15.text-intact")
+	readerLimitRule(w, r, "C15.no-limit")
 	printerRules(w, r, "C15.one-escaper")
 	constFormatRule(w, r, "C15.const-format")
 	r.rule("C15.verbatim", "the preamble line matched against the pattern is a piece of the text that was passed in, cut out only by operations that return part of their input unchanged (Cut, Trim…, slicing): a value's characters, including runs of blanks inside strings, reach the reader as they were written")
@@ -1229,7 +1249,7 @@ func checkC15(w *World, r *Report) {
 		okPat := true
 		detail := ""
 		for _, key := range []string{"$A", "$NUMBER_1", "$a-b", "$0"} {
-			for _, val := range []string{"1984", `"a b  c"`, `(+ 1 1)`, `{:k "v;; $X 1"}`, `¬{"a": 1}¬`, `"$A"`} {
+			for _, val := range []string{"1984", `"a b  c"`, `(+ 1 1)`, `{:k "v;; $X 1"}`, `¬{"a": 1}¬`, `"$A"`, `"SELECT 1 ; DROP"`, "[1 \t;x]", `"a" `, `(f) ;; $B 2`} {
 				line := wprefix + key + wsep + val
 				mm := re.FindAllStringSubmatch(line, -1)
 				if len(mm) != 1 || len(mm[0]) != 3 || mm[0][1] != wprefix+key || mm[0][2] != val {
@@ -1237,6 +1257,30 @@ func checkC15(w *World, r *Report) {
 					detail = fmt.Sprintf("line %q -> %v", line, mm)
 				}
 			}
+		}
+		// the value group takes the rest of the line, whatever it contains: the last thing the pattern matches is a
+		// greedy "any characters" capture (nothing after it but an optional end-of-text anchor)
+		if rx, err := syntax.Parse(pat, syntax.Perl); err == nil {
+			rx = rx.Simplify()
+			okTail := false
+			tail := ""
+			if rx.Op == syntax.OpConcat && len(rx.Sub) > 0 {
+				subs := rx.Sub
+				for len(subs) > 0 && (subs[len(subs)-1].Op == syntax.OpEndText || subs[len(subs)-1].Op == syntax.OpEndLine) {
+					subs = subs[:len(subs)-1]
+				}
+				if len(subs) > 0 {
+					last := subs[len(subs)-1]
+					tail = last.String()
+					if last.Op == syntax.OpCapture && len(last.Sub) == 1 {
+						in := last.Sub[0]
+						if (in.Op == syntax.OpPlus || in.Op == syntax.OpStar) && in.Flags&syntax.NonGreedy == 0 && len(in.Sub) == 1 && (in.Sub[0].Op == syntax.OpAnyCharNotNL || in.Sub[0].Op == syntax.OpAnyChar) {
+							okTail = true
+						}
+					}
+				}
+			}
+			r.check(okTail, "C15.format", rwp, "value group of the preamble pattern", rwp.Pos(), "a greedy capture of the rest of the line", "the pattern does not end in a greedy capture of everything up to the end of the line (it ends in "+tail+"): part of a value - after a blank and a semicolon, say - is not taken as data, the rest no longer reads and the placeholder silently becomes nil")
 		}
 		r.check(okPat, "C15.format", rwp, "preamble pattern on writer-shaped lines", rwp.Pos(), "yields (prefix+name, whole value) for names over letters, digits, - and _", "the reader's pattern does not split writer-shaped lines into name and whole value: "+detail)
 	}
@@ -1544,4 +1588,129 @@ func substringOnly(w *World, v ssa.Value, seen map[ssa.Value]bool, depth int) (b
 		return false, "string concatenation"
 	}
 	return false, describeVal(nil, v, 0)
+}
+
+// replAccumulateRule: the REPL keeps the lines typed so far only while the reader says the text is incomplete:
+// on every way round its loop the accumulated lines are either untouched (nothing was read), emptied, or - the
+// one case in which they grow - kept because the classifier said "incomplete" (or the line was empty).
+func replAccumulateRule(w *World, r *Report, multi *ssa.Function, rule string) {
+	r.rule(rule, "in the REPL loop the accumulated input is carried into the next round only on a path where the incomplete-input classifier answered true (or the input was the empty line): after an input was evaluated or rejected for any other reason the next line starts a new input, so a complete expression typed next is read on its own")
+	ex := w.Fn("repl", "Execute")
+	if ex == nil || multi == nil {
+		r.undecided(rule, nil, "repl.Execute / classifier", token.NoPos, "functions no longer resolve")
+		return
+	}
+	n := 0
+	for _, l := range naturalLoops(ex) {
+		blocks := loopBlocks(l)
+		for _, in := range l.header.Instrs {
+			phi, ok := in.(*ssa.Phi)
+			if !ok {
+				break
+			}
+			sl, ok := phi.Type().Underlying().(*types.Slice)
+			if !ok || !isBasic(sl.Elem(), types.String) {
+				continue
+			}
+			var checkEdge func(v ssa.Value, pred *ssa.BasicBlock, depth int)
+			checkEdge = func(v ssa.Value, pred *ssa.BasicBlock, depth int) {
+				if inner, ok := v.(*ssa.Phi); ok && inner != phi && depth < 6 {
+					// several ways round merge before the back edge
+					for j, op := range inner.Edges {
+						checkEdge(op, inner.Block().Preds[j], depth+1)
+					}
+					return
+				}
+				n++
+				if v == ssa.Value(phi) || isNilConst(v) {
+					return
+				}
+				if s2, ok := v.(*ssa.Slice); ok {
+					if al, ok := s2.X.(*ssa.Alloc); ok {
+						if at, ok := al.Type().(*types.Pointer).Elem().Underlying().(*types.Array); ok && at.Len() == 0 {
+							return // []string{}
+						}
+					}
+				}
+				// the lines grew: only under the classifier's "incomplete" or the empty-line test
+				kept := false
+				for _, d := range ex.Blocks {
+					iff := blockIf(d)
+					if iff == nil {
+						continue
+					}
+					if c, ok := iff.Cond.(*ssa.Call); ok && c.Call.StaticCallee() == multi && (edgeDominates(d, 0, pred) || d.Succs[0] == pred || (d == pred && d.Succs[0] == l.header)) {
+						kept = true
+					}
+					if _, s, ok := strEq(iff.Cond); ok && strings.Contains(s, "empty") && (edgeDominates(d, 0, pred) || d.Succs[0] == pred || (d == pred && d.Succs[0] == l.header)) {
+						kept = true
+					}
+				}
+				pos := token.NoPos
+				if len(pred.Instrs) > 0 {
+					pos = pred.Instrs[len(pred.Instrs)-1].Pos()
+				}
+				r.check(kept, rule, ex, "input carried into the next round", pos, "only after the classifier said the text is incomplete", "the lines typed so far are kept on a path where the text was not classified as incomplete (an input rejected with another error): every following line is appended to the rejected text, so no complete expression is read on its own again")
+			}
+			for i, v := range phi.Edges {
+				if pred := l.header.Preds[i]; blocks[pred] {
+					checkEdge(v, pred, 0)
+				}
+			}
+		}
+	}
+	r.floor(rule, "ways round the REPL loop", n, 3)
+}
+
+// leafReaderRule: the readers of single-token forms (atoms, placeholders: the functions the dispatcher calls that
+// never come back to it) take exactly one token from the stream: one call of the advancing accessor, which every
+// return has passed, and no call of another parsing function. A leaf that takes two tokens swallows the token
+// that follows - a closer, typically: complete text is then reported incomplete and stray closers are accepted.
+func leafReaderRule(w *World, r *Report, rule string) {
+	r.rule(rule, "a reader function for a single-token form (called by the dispatcher, never calling back into it) consumes exactly one token: it calls the advancing token accessor once, on every path before it returns, and calls no other parsing function of the reader")
+	rf, rl := w.Fn("reader", "read_form"), w.Fn("reader", "read_list")
+	next, _ := w.tokenAccessors()
+	if rf == nil || rl == nil || next == nil {
+		r.undecided(rule, nil, "read_form / read_list / token accessor", token.NoPos, "functions no longer resolve")
+		return
+	}
+	back := w.reachableTo(rf, "reader")
+	back[rf], back[rl] = true, true
+	n := 0
+	for _, leaf := range staticCalleesIn(rf) {
+		if !isReaderFn(leaf) || back[leaf] {
+			continue
+		}
+		n++
+		var nexts []*ssa.Call
+		okCalls := true
+		for _, f := range w.withPkgHelpers(leaf) {
+			for _, b := range f.Blocks {
+				for _, in := range b.Instrs {
+					c, ok := in.(*ssa.Call)
+					if !ok || c.Call.StaticCallee() == nil {
+						continue
+					}
+					switch sc := c.Call.StaticCallee(); {
+					case sc == next:
+						nexts = append(nexts, c)
+					case isReaderFn(sc) && sc != leaf:
+						okCalls = false
+						r.bad(rule, f, "parsing function called by a single-token reader", c.Pos(), w.fnName(leaf)+" has taken its token and calls "+sc.Name()+", which takes another: the token after the form is swallowed (a closing bracket, say), so complete text is reported incomplete and unbalanced text is accepted")
+					}
+				}
+			}
+		}
+		okOne := len(nexts) == 1
+		if okOne {
+			for _, rt := range (&evalModel{}).returns(leaf) {
+				ret := rt[0].(*ssa.Return)
+				if nexts[0].Parent() == leaf && !(nexts[0].Block() == ret.Block() || nexts[0].Block().Dominates(ret.Block())) {
+					okOne = false
+				}
+			}
+		}
+		r.check(okOne && okCalls, rule, leaf, "tokens taken by a single-token reader", leaf.Pos(), "exactly one, on every path", fmt.Sprintf("%s takes %d tokens (or none on some path): the reader's position no longer matches the brackets it has seen", w.fnName(leaf), len(nexts)))
+	}
+	r.floor(rule, "single-token readers", n, 2)
 }
